@@ -14,7 +14,8 @@ HYPOTHESES = ["ModelBilinearCode (C01_ProtoModel / Lemmas/ModelPairing): the pai
 NOT_YET_PROVED = ['bilinearity of the model pairing (Aggregate = group sum, order/grouping independence, error behaviour are unconditional)']
 ASSUMPTIONS = ["FastAggregateVerify returns False when the AGGREGATE public key is the identity (IETF-mandated KeyValidate of the aggregate)"]
 nontrivial = nontrivial_default
-EXTRA_MODULES = {"Props.C01_ProtoHB2": "PyEcc.C03.", "Props.C01_ProtoND": "PyEcc.C03.", "Props.C01_ProtoModel": "PyEcc.C03."}
+EXTRA_MODULES = {"Props.C01_ProtoHB2": "PyEcc.C03.", "Props.C01_ProtoND": "PyEcc.C03.", "Props.C01_ProtoModel": "PyEcc.C03.", "Props.TieBls": "PyEcc.Tie.", "Props.TieBlsAgg": "PyEcc.Tie."}
+
 CHUNK = 2
 
 
